@@ -418,6 +418,11 @@ func generateTables(source *syntax.Model, out *grammar.Grammar, opts genOptions,
 	types := make(map[string]int)
 	cats := make(map[string]bool)
 	seenFlags := make(map[string]bool)
+	for _, f := range out.Lexer.UsedFlags {
+		// Flags of injected tokens reach the listener as well.
+		seenFlags[f] = true
+		parser.UsedFlags = append(parser.UsedFlags, f)
+	}
 	if parser.Types != nil {
 		for i, t := range parser.Types.RangeTypes {
 			types[t.Name] = i
